@@ -121,10 +121,23 @@ func finite(x float64) bool { return !math.IsNaN(x) && !math.IsInf(x, 0) }
 // binErr bounds res = l op r given the bounds of the operands; unc tells that the operands are
 // too close to a discontinuity of op for the result to be decided.
 func binErr(op string, l, el, r, er, res float64) (e float64, unc bool) {
+	if math.IsNaN(l) || math.IsNaN(r) {
+		// NaN propagates through arithmetic and fails every comparison but != whatever the
+		// other operand is.
+		return 0, false
+	}
 	if !finite(l) || !finite(r) {
-		// NaN and infinities propagate the same way in every evaluation order, unless the
-		// other operand could change the class of the result.
-		return 0, (el > 0 || er > 0) && finite(res)
+		// An infinite operand decides additions, subtractions and comparisons by itself; for
+		// the other operators the sign or the zero-ness of the finite operand matters.
+		switch op {
+		case "+", "-", "==", "!=", ">", ">=", "<", "<=":
+			return 0, false
+		case "*":
+			return 0, (finite(l) && math.Abs(l) <= 2*el) || (finite(r) && math.Abs(r) <= 2*er)
+		case "/":
+			return 0, finite(r) && math.Abs(r) <= 2*er
+		}
+		return 0, el > 0 || er > 0
 	}
 	exact := el == 0 && er == 0
 	switch op {
